@@ -965,9 +965,10 @@ class SyncObj(object):
                 if self.__serializer.setTransmissionData(serialized):
                     self.__loadDumpFile(clearJournal=True)
                     self.__sendNextNodeIdx(node, success=True)
-
-            if 'prevLogIdx' not in message and leaderCommitIndex > self.__raftCommitIndex:
-                self.__raftCommitIndex = min(leaderCommitIndex, self.__getCurrentLogIndex())
+                    # A completely installed snapshot is committed state. A partial one tells
+                    # nothing about our own log, so it must not move the commit index.
+                    if self.__raftLastApplied > self.__raftCommitIndex:
+                        self.__raftCommitIndex = self.__raftLastApplied
 
             self.__raftLog.setRaftCommitIndex(self.__raftCommitIndex)
 
